@@ -299,6 +299,40 @@ fn fn_case<N: Scalar>(case: &Value) -> Value {
         "anti_hi": cj(a.antiderivative(N::of_c(C64::new(0.0, 0.0))).evaluate(hi).to_c()),
         "roundtrip": cvj(&asc(&a)),
         "order": a.order(),
+        "misc": misc::<N>(&a, &a_asc, jf(&case["ta"])),
+    })
+}
+
+/// API surface beyond the listed properties: conversions, zero tests, tolerance validation, constructors
+fn misc<N: Scalar>(a: &Polynomial<N>, a_asc: &[C64], tol: f64) -> Value {
+    let mc = a.make_complex();
+    let mut mc_asc: Vec<C64> = mc.get_coefficients().to_vec();
+    mc_asc.reverse();
+    let lead = N::of_c(*a_asc.last().unwrap());
+    let from_scalar: Polynomial<N> = Polynomial::from(lead);
+    let zero = Polynomial::<N>::new();
+    let cap = Polynomial::<N>::with_capacity(7);
+    let dflt: Polynomial<N> = Default::default();
+    let mut t = a.clone();
+    let set_neg = t.set_tolerance(-1.0).is_err();
+    let set_pos = t.set_tolerance(tol * 2.0).is_ok();
+    let desc: Vec<N> = a_asc.iter().rev().map(|c| N::of_c(*c)).collect();
+    let m = if desc.len() == 2 { bacon_sci::polynomial![desc[0], desc[1]] } else { Polynomial::from_slice(&desc) };
+    let macro_same = asc(&m) == asc(a);
+    json!({
+        "make_complex": cvj(&mc_asc),
+        "mc_tol": fj(mc.get_tolerance()),
+        "is_zero": num_traits::Zero::is_zero(a),
+        "from_scalar": cvj(&asc(&from_scalar)),
+        "new_is_zero": num_traits::Zero::is_zero(&zero) && zero.order() == 0,
+        "cap_is_zero": num_traits::Zero::is_zero(&cap) && cap.order() == 0,
+        "default_is_zero": num_traits::Zero::is_zero(&dflt) && dflt.order() == 0,
+        "with_tol_neg_err": Polynomial::<N>::with_tolerance(-1e-3).is_err(),
+        "with_tol_pos_ok": Polynomial::<N>::with_tolerance(1e-3).map(|p| p.get_tolerance() == 1e-3 && p.order() == 0).unwrap_or(false),
+        "set_tol_neg_err": set_neg,
+        "set_tol_pos_ok": set_pos && t.get_tolerance() == tol * 2.0,
+        "get_tol": fj(a.get_tolerance()),
+        "macro_same": macro_same,
     })
 }
 
